@@ -37,13 +37,15 @@ def SkipsExtra {Y : Type} (skipX : List Bool → List Cell → Outcome (List Boo
 
 theorem mapInnerAug_toCell {V Y : Type} (skipX : List Bool → List Cell → Outcome (List Bool × List Cell))
     (C : Codec V) (pay : V → List Bool × List Cell) (xpay : Y → List Bool × List Cell)
-    (hdec : DecodesPayload C pay) (hskip : SkipsExtra skipX xpay) (n : Nat) (hn : n < 2 ^ 64) (t : ATree V Y) :
+    (hskip : SkipsExtra skipX xpay) (n : Nat) (hn : n < 2 ^ 64) (t : ATree V Y) :
+    (∀ kv ∈ t.meaning, DecodesValue C pay kv.2) →
     ∀ (m : Nat) (pfx : Key) (fuel : Nat), t.Valid m → pfx.length + m = n → m < fuel →
       mapInnerAug skipX C n fuel (m : Int) (t.toCell pay xpay m) pfx =
         .ok (t.meaning.map fun kv => (pfx ++ kv.1, kv.2)) := by
   induction t with
   | leaf l y v =>
-    intro m pfx fuel hv hlen hf
+    intro hdec m pfx fuel hv hlen hf
+    have hdv : C.dec (pay v).1 (pay v).2 = .ok v := hdec (l.bits, v) (by simp [ATree.meaning])
     obtain ⟨f, rfl⟩ : ∃ f, fuel = f + 1 := ⟨fuel - 1, by omega⟩
     simp only [ATree.Valid] at hv
     have hm : m < 2 ^ 64 := by omega
@@ -52,9 +54,15 @@ theorem mapInnerAug_toCell {V Y : Type} (skipX : List Bool → List Cell → Out
     have h1 : ¬ ((pfx ++ l.bits).length < n) := by simp; omega
     have ht1 : ¬ ((0 : Nat) = tyPruned) := by decide
     have ht2 : ¬ ((0 : Nat) = tyLibrary) := by decide
-    simp only [ht1, ht2, h1, if_false, hskip y, hdec v, ATree.meaning, List.map_cons, List.map_nil]
+    simp only [ht1, ht2, h1, if_false, hskip y, hdv, ATree.meaning, List.map_cons, List.map_nil]
   | fork l y lo hi ihlo ihhi =>
-    intro m pfx fuel hv hlen hf
+    intro hdec m pfx fuel hv hlen hf
+    have hdlo : ∀ kv ∈ lo.meaning, DecodesValue C pay kv.2 := fun kv hkv =>
+      hdec (l.bits ++ false :: kv.1, kv.2) (by
+        simp only [ATree.meaning, List.mem_append, List.mem_map]; exact Or.inl ⟨kv, hkv, rfl⟩)
+    have hdhi : ∀ kv ∈ hi.meaning, DecodesValue C pay kv.2 := fun kv hkv =>
+      hdec (l.bits ++ true :: kv.1, kv.2) (by
+        simp only [ATree.meaning, List.mem_append, List.mem_map]; exact Or.inr ⟨kv, hkv, rfl⟩)
     obtain ⟨f, rfl⟩ : ∃ f, fuel = f + 1 := ⟨fuel - 1, by omega⟩
     simp only [ATree.Valid] at hv
     obtain ⟨hl, hvlo, hvhi⟩ := hv
@@ -66,8 +74,8 @@ theorem mapInnerAug_toCell {V Y : Type} (skipX : List Bool → List Cell → Out
     have ht2 : ¬ ((0 : Nat) = tyLibrary) := by decide
     have hleft : (m : Int) - (1 + (l.bits.length : Int)) = ((m - l.bits.length - 1 : Nat) : Int) := by omega
     simp only [ht1, ht2, h1, if_true, if_false, hleft]
-    rw [ihlo (m - l.bits.length - 1) (pfx ++ l.bits ++ [false]) f hvlo (by simp; omega) (by omega)]
-    rw [ihhi (m - l.bits.length - 1) (pfx ++ l.bits ++ [true]) f hvhi (by simp; omega) (by omega)]
+    rw [ihlo hdlo (m - l.bits.length - 1) (pfx ++ l.bits ++ [false]) f hvlo (by simp; omega) (by omega)]
+    rw [ihhi hdhi (m - l.bits.length - 1) (pfx ++ l.bits ++ [true]) f hvhi (by simp; omega) (by omega)]
     have hsk := hskip y [] []
     simp only [List.append_nil] at hsk
     simp only [hsk]
